@@ -252,7 +252,9 @@ def replay(payload):
     meta = payload.get('meta') or {}
     cex = payload.get('counterexample')
     L, rn = meta.get('logic'), meta.get('rule')
-    if not (L and rn) or meta.get('kind') != 'operator' or not isinstance(cex, dict):
+    if L and rn and (meta.get('kind') != 'operator' or not isinstance(cex, dict)):
+        return replay_by_search(L, rn)
+    if not (L and rn):
         return dict(reproduced=None, detail='no concrete replay for this obligation kind; see counterexample/meta')
     from pytableaux.logics import registry
     from pytableaux.proof import Tableau, sdwnode
@@ -282,3 +284,55 @@ def replay(payload):
     fails = (node_sat and not some) if meta.get('direction') == 'forward' else (some and not node_sat)
     return dict(reproduced=bool(fails), detail=f'{L} {rn}: node {b[0]["sentence"]} des={rc.designation} at A={cex.get("A")},B={cex.get("B")} satisfied={node_sat}; extensions (sentence, des, satisfied)={ext}',
                 call=f'Tableau("{L}").rules.get("{rn}").target(<one-node branch>)')
+
+
+def replay_by_search(L, rule_name, limit=400):
+    """a failing input for a quantifier / modal (or any) rule obligation, by search: small arguments built around the node shape
+    of the rule are run on the real prover; a `valid` verdict with an independently found small countermodel, or an `invalid`
+    verdict whose limit-free open branch yields a model that fails a node of the branch, reproduces the defect"""
+    from pytableaux.logics import registry
+    from pytableaux.proof import Tableau
+    from pytableaux.lang import Atomic, Operator, Quantifier, Predicate, Constant, Variable, Argument
+    from bounded import prover as P
+    from spec import evaluate as E
+    import itertools as _it
+    logic = registry(L); sem = S.spec_of(L)
+    rule = Tableau(logic).rules.get(rule_name); rc = type(rule)
+    A, B = Atomic(0, 0), Atomic(1, 0)
+    F = Predicate(0, 0, 1); G = Predicate(1, 0, 2); x = Variable(0, 0); m, n = Constant(0, 0), Constant(1, 0)
+    op = getattr(rc, 'operator', None); q = getattr(rc, 'quantifier', None)
+    pool = []
+    if q is not None:
+        shapes = [q(x, F(x)), q(x, Operator.Disjunction(F(x), G(x, m))), q(x, Operator.Conjunction(F(x), ~G(x, x)))]
+        base = [F(m), F(n), G(m, m), G(n, m)]
+    elif op is not None and op.name in ('Possibility', 'Necessity'):
+        shapes = [op(A), op(op(A)), op(Operator.Disjunction(A, B)), Operator.Necessity(Operator.Possibility(A)), Operator.Possibility(Operator.Necessity(A))]
+        base = [A, B, Operator.Possibility(A), Operator.Necessity(A), Operator.Possibility(B)]
+    elif op is not None:
+        shapes = [op(A) if op.arity == 1 else op(A, B)]
+        base = [A, B]
+    else:
+        return dict(reproduced=None, detail='the rule has neither operator nor quantifier')
+    for sh in shapes: pool += [sh, ~sh]
+    for b_ in base: pool += [b_, ~b_]
+    seen = 0
+    for k in (1, 2):
+        for prem in _it.combinations(pool, k):
+            for concl in pool:
+                if concl in prem: continue
+                seen += 1
+                if seen > limit: return dict(reproduced=False, detail=f'no failing input among {limit} arguments built around the node shape of {rule_name}')
+                arg = Argument(concl, prem)
+                o, tab = P.outcome(logic, arg, is_build_models=True, max_steps=600)
+                if o == 'valid':
+                    d = E.small_countermodel(sem, arg.premises, arg.conclusion, budget=60_000)
+                    if d is not None:
+                        return dict(reproduced=True, argument=arg.argstr(),
+                                    detail=f'{L}: the real prover reports {arg.argstr()} ({", ".join(map(str, prem))} |- {concl}) valid; independent countermodel: worlds {d.worlds}, R {sorted(d.R)}, domain {[str(c) for c in d.domain]}, '
+                                           f'atoms {({f"{a}@{w}": S.NAME[v] for (w, a), v in d.atom.items()})}, predications {({f"{p_.name}{tuple(map(str, t))}@{w}": S.NAME[v] for (w, p_, t), v in d.pred.items()})}')
+                elif o == 'invalid':
+                    try: fails = [f for f in P.branch_model_failures(logic, tab, sem) if f[0] != 'evaluator']
+                    except Exception as e: fails = [('exception', type(e).__name__)]
+                    if fails:
+                        return dict(reproduced=True, argument=arg.argstr(), detail=f'{L}: the real prover refutes {arg.argstr()} with a limit-free open branch whose own model fails {list(fails[0])}')
+    return dict(reproduced=False, detail=f'no failing input among {seen} arguments built around the node shape of {rule_name}')
